@@ -115,11 +115,12 @@ theorem clipped_bbox (clip B : Rect) (p : Pt) :
 /-- **Clipped, per call** (`draw_iter`, `fill_contiguous` with full, short and long streams — both
 the `intersection == area` shortcut and the re-cut colour stream —, `fill_solid`, `clear`): what
 the parent receives means, at every point `q`: inside `clip ∩ parent box` exactly what the call
-means, outside nothing. -/
-theorem clipped_exact (clip B : Rect) (c : Call) (h1 : c.Ok (clip.intersection B))
-    (h2 : ((Adapter.clipped clip).lower B c).Ok B) (q : Pt) :
+means, outside nothing. The only guard is on the call itself (its area is empty or in `i32`
+range); clipping never leaves the range (`Adapter.clipped_lower_ok`). -/
+theorem clipped_exact (clip B : Rect) (c : Call) (h1 : c.Ok (clip.intersection B)) (q : Pt) :
     ((Adapter.clipped clip).lower B c).sem B q =
       if clip.contains q = true ∧ B.contains q = true then c.sem (clip.intersection B) q else none := by
+  have h2 := Adapter.clipped_lower_ok (clip.intersection B) B c h1
   simp only [Adapter.lower] at h2 ⊢
   rw [Adapter.clipped_sem _ _ _ h1 h2]
   by_cases h : (clip.intersection B).contains q = true
@@ -127,67 +128,73 @@ theorem clipped_exact (clip B : Rect) (c : Call) (h1 : c.Ok (clip.intersection B
   · rw [if_neg h, if_neg (fun h' => h ((Rect.mem_intersection clip B q).mpr h'))]
 
 example : (Call.fillContiguous ⟨⟨-1, 0⟩, ⟨3, 2⟩⟩ [1, 2, 3, 4]).Ok
-      ((Rect.mk ⟨0, 0⟩ ⟨2, 2⟩).intersection ⟨⟨-2, -2⟩, ⟨6, 5⟩⟩) ∧
-    ((Adapter.clipped ⟨⟨0, 0⟩, ⟨2, 2⟩⟩).lower ⟨⟨-2, -2⟩, ⟨6, 5⟩⟩
-      (Call.fillContiguous ⟨⟨-1, 0⟩, ⟨3, 2⟩⟩ [1, 2, 3, 4])).Ok ⟨⟨-2, -2⟩, ⟨6, 5⟩⟩ := by decide
+      ((Rect.mk ⟨0, 0⟩ ⟨2, 2⟩).intersection ⟨⟨-2, -2⟩, ⟨6, 5⟩⟩) := by decide
 
 /-- **No pixel outside `clip ∩ parent box` ever reaches the parent**: every write the parent is
 offered (list level, before the parent's own clipping; the same list for a `draw_iter`-only
 parent by `default_writes_eq_native`) lies in the clip area and in the parent's box. -/
-theorem clipped_nothing_outside (clip B : Rect) (c : Call)
-    (h2 : ((Adapter.clipped clip).lower B c).Ok B) :
+theorem clipped_nothing_outside (clip B : Rect) (c : Call) (h1 : c.Ok (clip.intersection B)) :
     ∀ w ∈ ((Adapter.clipped clip).lower B c).lowerNative B,
       clip.contains w.1 = true ∧ B.contains w.1 = true := by
   intro w hw
-  exact (Rect.mem_intersection clip B w.1).mp (Adapter.clipped_inside _ B c h2 w hw)
+  exact (Rect.mem_intersection clip B w.1).mp
+    (Adapter.clipped_inside _ B c (Adapter.clipped_lower_ok (clip.intersection B) B c h1) w hw)
 
-theorem clipped_nothing_outside_default (clip B : Rect) (c : Call)
-    (h2 : ((Adapter.clipped clip).lower B c).Ok B) :
+theorem clipped_nothing_outside_default (clip B : Rect) (c : Call) (h1 : c.Ok (clip.intersection B)) :
     ∀ w ∈ ((Adapter.clipped clip).lower B c).lowerDefault B,
       clip.contains w.1 = true ∧ B.contains w.1 = true := by
-  rw [Call.lowerDefault_eq_lowerNative]; exact clipped_nothing_outside clip B c h2
+  rw [Call.lowerDefault_eq_lowerNative]; exact clipped_nothing_outside clip B c h1
 
-/-- Range guard for a history drawn through a clipped target. -/
-def ClippedOk (clip B : Rect) (calls : List Call) : Prop :=
-  B.Ok ∧ (clip.intersection B).Ok ∧ ∀ c ∈ calls, stackOk B [Adapter.clipped clip] c
+/-- Range guard for a history drawn through a clipped target: the parent's box and the areas of
+the calls are empty or in `i32` range (nothing is asked of the clip area). -/
+def ClippedOk (B : Rect) (calls : List Call) : Prop := B.Ok ∧ ∀ c ∈ calls, c.Ok B
+
+theorem ClippedOk.call_ok {clip B : Rect} {calls : List Call} (h : ClippedOk B calls) :
+    ∀ c ∈ calls, c.Ok (clip.intersection B) := by
+  intro c hc
+  have := h.2 c hc
+  cases c with
+  | clear col => exact Rect.ok_intersection_right clip B h.1
+  | _ => exact this
 
 /-- **Clipped, whole histories**: after any sequence of operations through the clipped target the
 parent's pixel map is, inside `clip ∩ parent box`, exactly the map the parent has after the same
 operations applied to it directly, and empty outside (parent with native fills). -/
-theorem clipped_history_exact (clip B : Rect) (calls : List Call) (h : ClippedOk clip B calls) (q : Pt) :
+theorem clipped_history_exact (clip B : Rect) (calls : List Call) (h : ClippedOk B calls) (q : Pt) :
     runNative B (calls.map ((Adapter.clipped clip).lower B)) q =
       if clip.contains q = true ∧ B.contains q = true then runNative B calls q else none := by
-  have hs := stack_run_native B [Adapter.clipped clip] calls h.2.2 q
+  have hR : (clip.intersection B).Ok := Rect.ok_intersection_right clip B h.1
+  have hs := stack_run_native B [Adapter.clipped clip] calls (by
+    intro c hc
+    exact ⟨h.call_ok c hc, Adapter.clipped_lower_ok _ B c (h.call_ok c hc)⟩) q
   simp only [runStackNative, lowerStack] at hs
   rw [hs]
   simp only [stackXf, stackBox, Xf.act, Xf.comp, Xf.id, Adapter.xf, Adapter.bbox, Pt.sub_zero,
     Bool.and_true]
   by_cases hB : B.contains q = true
   · by_cases hc : clip.contains q = true
-    · have hR := (Rect.mem_intersection clip B q).mpr ⟨hc, hB⟩
-      simp only [hB, hc, hR, ↓reduceIte, and_self]
+    · have hRq := (Rect.mem_intersection clip B q).mpr ⟨hc, hB⟩
+      simp only [hB, hc, hRq, ↓reduceIte, and_self]
+      have hq0 : q - (Pt.zero + Pt.zero) = q := by rw [Pt.ext_iff']; simp [Pt.zero]
       rw [runNative_eq_runDirect, if_pos hB,
-        runDirect_box_irrelevant _ B calls _ h.2.1 h.1 (by
-          have : q - (Pt.zero + Pt.zero) = q := by rw [Pt.ext_iff']; simp [Pt.zero]
-          rw [this, hR, hB])]
-      have : q - (Pt.zero + Pt.zero) = q := by rw [Pt.ext_iff']; simp [Pt.zero]
-      rw [this]; simp
-    · have hR : ¬ (clip.intersection B).contains q = true :=
+        runDirect_box_irrelevant _ B calls _ hR h.1 (by rw [hq0, hRq, hB])]
+      rw [hq0]; simp
+    · have hRq : ¬ (clip.intersection B).contains q = true :=
         fun h' => hc ((Rect.mem_intersection clip B q).mp h').1
-      simp [hB, hc, hR]
+      simp [hB, hc, hRq]
   · simp [hB]
 
 /-- The same for a parent that only implements `draw_iter` (trait defaults). -/
-theorem clipped_history_exact_default (clip B : Rect) (calls : List Call) (h : ClippedOk clip B calls)
+theorem clipped_history_exact_default (clip B : Rect) (calls : List Call) (h : ClippedOk B calls)
     (q : Pt) :
     runDefault B (calls.map ((Adapter.clipped clip).lower B)) q =
       if clip.contains q = true ∧ B.contains q = true then runDefault B calls q else none := by
   rw [runDefault_eq_runNative, runDefault_eq_runNative]; exact clipped_history_exact clip B calls h q
 
-instance (clip B : Rect) (calls : List Call) : Decidable (ClippedOk clip B calls) := by
+instance (B : Rect) (calls : List Call) : Decidable (ClippedOk B calls) := by
   unfold ClippedOk; exact inferInstance
 
-example : ClippedOk ⟨⟨0, 0⟩, ⟨2, 2⟩⟩ ⟨⟨-2, -2⟩, ⟨6, 5⟩⟩
+example : ClippedOk ⟨⟨-2, -2⟩, ⟨6, 5⟩⟩
     [.fillContiguous ⟨⟨-1, 0⟩, ⟨3, 2⟩⟩ [1, 2, 3, 4], .clear 9, .fillSolid ⟨⟨1, 1⟩, ⟨4, 4⟩⟩ 5,
      .drawIter [(⟨5, 5⟩, 1), (⟨0, 0⟩, 2), (⟨0, 0⟩, 3)]] := by decide
 
@@ -281,11 +288,58 @@ theorem xf_comp_fields (outer inner : Xf) (q : Pt) (c : Color) :
 theorem stack_box_cons (B : Rect) (a : Adapter) (rest : Stack) :
     stackBox B (a :: rest) = stackBox (a.bbox B) rest := rfl
 
+/-- A nesting built on top of a nesting is the composition of the two (boxes, lowered calls and
+transformations). -/
+theorem stack_append (B : Rect) (s1 s2 : Stack) :
+    stackXf B (s1 ++ s2) = (stackXf B s1).comp (stackXf (stackBox B s1) s2) ∧
+    stackBox B (s1 ++ s2) = stackBox (stackBox B s1) s2 ∧
+    ∀ c, lowerStack B (s1 ++ s2) c = lowerStack B s1 (lowerStack (stackBox B s1) s2 c) :=
+  ⟨stackXf_append B s1 s2, stackBox_append B s1 s2, lowerStack_append B s1 s2⟩
+
+/-- Instances of the composition law: two translations add, -/
+theorem translated_translated (B : Rect) (d1 d2 : Pt) (m : Pt → Option Color) (q : Pt) :
+    (stackXf B [.translated d1, .translated d2]).act m q = m (q - (d1 + d2)) := by
+  simp only [stackXf, Xf.act_comp, Xf.act_id, (adapter_xf _ _ _).2.2.1]
+  rw [Pt.sub_add]
+
+/-- two clip areas intersect (with each other and the root's box), -/
+theorem clipped_clipped (B r1 r2 : Rect) (m : Pt → Option Color) (q : Pt) :
+    (stackXf B [.clipped r1, .clipped r2]).act m q =
+      if r1.contains q = true ∧ r2.contains q = true ∧ B.contains q = true then m q else none := by
+  simp only [stackXf, Xf.act_comp, Xf.act_id, (adapter_xf _ _ _).1, Adapter.bbox]
+  by_cases h1 : r1.contains q = true <;> by_cases hB : B.contains q = true <;>
+    by_cases h2 : r2.contains q = true <;> simp [h1, h2, hB, Rect.mem_intersection]
+
+/-- a clip area given in translated coordinates is the translated region in root coordinates, -/
+theorem translated_clipped (B r : Rect) (d : Pt) (m : Pt → Option Color) (q : Pt) :
+    (stackXf B [.translated d, .clipped r]).act m q =
+      if r.contains (q - d) = true ∧ B.contains q = true then m (q - d) else none := by
+  simp only [stackXf, Xf.act_comp, Xf.act_id, (adapter_xf _ _ _).1, (adapter_xf _ _ _).2.2.1]
+  have : ((Adapter.translated d).bbox B).contains (q - d) = B.contains q := by
+    rw [translated_bbox]; congr 1; rw [Pt.ext_iff']; simp only [Pt.add_x, Pt.add_y, Pt.sub_x, Pt.sub_y]; omega
+  rw [this]
+
+/-- and colour conversions compose, the root-most one applied last. -/
+theorem converted_converted (B : Rect) (f g : Color → Color) (m : Pt → Option Color) (q : Pt) :
+    (stackXf B [.converted f, .converted g]).act m q = (m q).map (fun c => f (g c)) := by
+  simp only [stackXf, Xf.act_comp, Xf.act_id, (adapter_xf _ _ _).2.2.2]
+  cases m q <;> rfl
+
 /-- **Nestings, per call** (any depth: induction over the stack): the call the root receives
 means the composed transformation of what the call means on the top of the nesting. -/
 theorem stack_exact (B : Rect) (s : Stack) (c : Call) (h : stackOk B s c) (q : Pt) :
     (lowerStack B s c).sem B q = (stackXf B s).act (c.sem (stackBox B s)) q :=
   stack_sem B s c h q
+
+/-- For nestings of clipped and colour-converted targets only (no coordinate shift) the guard of
+`stack_exact` reduces to the user's inputs: root box and call area empty or in `i32` range. -/
+theorem stack_guard_of_no_shift (B : Rect) (s : Stack) (c : Call)
+    (hs : ∀ a ∈ s, a.noShift = true) (hB : B.Ok) (hc : c.Ok B) : stackOk B s c :=
+  stackOk_of_noShift B s c hs hB hc
+
+example : (∀ a ∈ [Adapter.clipped ⟨⟨0, 0⟩, ⟨2, 2⟩⟩, Adapter.converted (fun c => c + 1)], a.noShift = true) := by
+  intro a ha; simp only [List.mem_cons, List.not_mem_nil, or_false] at ha
+  rcases ha with rfl | rfl <;> rfl
 
 /-- **Nestings, whole histories, both kinds of root**: the root's final pixel map is the composed
 transformation of the direct meaning of the history, cut to the root's box. -/
